@@ -80,6 +80,23 @@ fn main() {
         std::io::stderr().write_all(&se).unwrap();
         std::process::exit(status);
     }
+    // (C16) output script, inactive unless STANDIN_OUTPUTS is set: rules `<kind>.<selector>.<stream><pattern><shift>.<size>`
+    // (`lct::OutRule`) select invocations that print exactly <size> generated bytes (ASCII / 2-, 3-, 4-byte characters / mixed /
+    // not UTF-8, shifted by 0..3 bytes) on stdout and/or stderr in place of the flavour's texts; whether they fail is decided
+    // above. A successful `docker port` keeps its flavour's stdout (libcnb-test parses it).
+    if let Some(r) = std::env::var("STANDIN_OUTPUTS").ok().and_then(|s| lct::out_rule_for(&s, &name, &words, index, &before)) {
+        let bytes = lct::gen_output(r.pat, r.shift, r.size);
+        let port_ok = name == "docker" && code.is_none() && words.first() == Some(&&b"port"[..]);
+        if port_ok { let _ = std::io::stdout().write_all([&b"127.0.0.1:12345\n"[..], b"  0.0.0.0:49153 \n\n", b"[::1]:8080", b"0.0.0.0:49153\n[::]:49153\n"][flavour % 4]); }
+        else if r.stream != 'e' { let _ = std::io::stdout().write_all(&bytes); }
+        let _ = std::io::stdout().flush();
+        if r.stream != 'o' { let _ = std::io::stderr().write_all(&bytes); }
+        match code {
+            Some(c) if c == "sig" => std::process::abort(),
+            Some(c) => std::process::exit(c.parse().unwrap_or(7)),
+            None => std::process::exit(0),
+        }
+    }
     let out = std::io::stdout();
     let mut out = out.lock();
     if name == "docker" {
